@@ -198,6 +198,10 @@ func (g *gen) wstr() []byte {
 // ---------- operations ----------
 
 func (g *gen) count() int64 {
+	if g.r.Chance(7) {
+		// no limit (negative: C Lua's size_t conversion) and counts far beyond any file
+		return []int64{-1, -1, -7, 1 << 31, 1 << 40, 1 << 53, 20000, 16384}[g.r.Intn(8)]
+	}
 	if g.flavour == "num" {
 		return int64([]int{0, 1, 1, 2, 3, 5, 200}[g.r.Intn(7)])
 	}
@@ -243,6 +247,9 @@ func (g *gen) readOp() Op {
 	if n == 1 && o.Fmts[0].K == "line" && g.r.Chance(30) {
 		o.NoArg = true
 	}
+	if g.r.Chance(20) {
+		o.Via = "io" // io.input(f); io.read(...)
+	}
 	return o
 }
 
@@ -280,6 +287,9 @@ func (g *gen) writeOp() Op {
 		b := g.wstr()
 		g.size += len(b)
 		o.Strs = append(o.Strs, encode(b))
+	}
+	if g.r.Chance(20) {
+		o.Via = "io" // io.output(f); io.write(...)
 	}
 	return o
 }
@@ -390,8 +400,8 @@ func (g *gen) handleOp() {
 		o = g.readOp()
 	case 1:
 		o = Op{T: "lines", H: g.cur, K: []int{0, 0, 1, 1, 2, 3, 5, 64}[g.r.Intn(8)]}
-		if t.open && t.rd && g.r.Chance(30) {
-			o.Via = "io"
+		if t.rd && g.r.Chance(30) {
+			o.Via = "io" // io.input(f); io.lines(), also when f is closed by now
 		}
 	case 2:
 		o = g.writeOp()
@@ -399,12 +409,15 @@ func (g *gen) handleOp() {
 		o = g.seekOp()
 	case 4:
 		o = Op{T: "flush", H: g.cur}
+		if g.r.Chance(30) {
+			o.Via = "io0" // io.output(f); io.flush()
+		}
 	case 5:
 		o = g.setvbufOp()
 	case 6:
 		o = Op{T: "close", H: g.cur}
-		if g.r.Chance(30) {
-			o.Via = "io"
+		if g.r.Chance(45) {
+			o.Via = []string{"io", "io", "io0"}[g.r.Intn(3)] // io.close(f) / io.output(f); io.close()
 		}
 	default:
 		o = Op{T: "next", H: g.cur, K: []int{1, 1, 2, 3, 64}[g.r.Intn(5)]}
@@ -441,7 +454,12 @@ func (g *gen) openOp() {
 	if g.r.Chance(50) {
 		m = []string{"r+", "rb+", "r+b", "a+", "r", "w+"}[g.r.Intn(6)]
 	}
-	g.push(Op{T: "open", Mode: m})
+	o := Op{T: "open", Mode: m}
+	if g.r.Chance(12) {
+		// io.input(name) / io.output(name): modes "r" / "w"
+		o.Mode, o.Via = []string{"r", "w"}[g.r.Intn(2)], "io"
+	}
+	g.push(o)
 	g.cur = len(g.ts) - 1
 }
 
